@@ -1530,6 +1530,34 @@ fn irredundant(r: &[(u32, u32)]) -> Result<(), String> {
     Ok(())
 }
 
+/// truth table (as a vector of bools over the assignments) of an RPN expression over cube lists;
+/// `xor_forms`: operands are XOR lists (`^`, `!`), otherwise OR lists (`&`, `|`, `!`)
+fn expr_table(n: usize, toks: &[&str], xor_forms: bool) -> Option<Vec<bool>> {
+    let mut st: Vec<Vec<bool>> = Vec::new();
+    for tok in toks {
+        match *tok {
+            "&" | "|" | "^" => {
+                let b = st.pop()?;
+                let a = st.pop()?;
+                st.push(a.iter().zip(b.iter()).map(|(x, y)| match *tok {
+                    "&" => *x && *y,
+                    "|" => *x || *y,
+                    _ => *x != *y,
+                }).collect());
+            }
+            "!" => {
+                let a = st.pop()?;
+                st.push(a.iter().map(|x| !*x).collect());
+            }
+            _ => {
+                let cs = parse_raw_cubes(tok);
+                st.push((0..(1usize << n)).map(|m| if xor_forms { esop_val(&cs, m) } else { sop_val(&cs, m) }).collect());
+            }
+        }
+    }
+    if st.len() == 1 { st.pop() } else { None }
+}
+
 fn c14(t: &[&str], out: &str) -> R {
     if t[0] == "fctor" {
         return fctor(t, out);
@@ -1539,6 +1567,21 @@ fn c14(t: &[&str], out: &str) -> R {
     }
     let o: Vec<&str> = out.split_whitespace().collect();
     match t[1] {
+        "expr" => {
+            let n = us(t[2]);
+            let want = expr_table(n, &t[3..], false).ok_or("malformed expression")?;
+            if o.len() != 2 || o[0] != "ok" {
+                return Err(format!("sop expression: `{}`", out));
+            }
+            let r = parse_raw_cubes(o[1]);
+            for m in 0..(1usize << n) {
+                if sop_val(&r, m) != want[m] {
+                    return Err(format!("sop expression: the result differs from the Boolean expression at assignment {}", m));
+                }
+            }
+            irredundant(&r)?;
+            Ok(true)
+        }
         "and" | "or" | "not" => {
             let n = us(t[2]);
             let a = parse_raw_cubes(t[3]);
@@ -1614,6 +1657,20 @@ fn c15(t: &[&str], out: &str) -> R {
     }
     let o: Vec<&str> = out.split_whitespace().collect();
     match t[1] {
+        "expr" => {
+            let n = us(t[2]);
+            let want = expr_table(n, &t[3..], true).ok_or("malformed expression")?;
+            if o.len() != 2 || o[0] != "ok" {
+                return Err(format!("esop expression: `{}`", out));
+            }
+            let r = parse_raw_cubes(o[1]);
+            for m in 0..(1usize << n) {
+                if esop_val(&r, m) != want[m] {
+                    return Err(format!("esop expression: the result differs from the Boolean expression at assignment {}", m));
+                }
+            }
+            Ok(true)
+        }
         "fromlut" => {
             let f = parse_tab(t[2]).unwrap();
             if !f.wf() {
@@ -2020,6 +2077,9 @@ fn check_out(prop: &str, line: &str, out: &str) -> R {
     }
     if out == "ok wrong-num-vars" {
         return Err("the result of an operator on two-level forms has another number of variables than its operands".to_string());
+    }
+    if out == "ok views-disagree" {
+        return Err("the views of one two-level form (its cubes, value() on every assignment, its conversion to a Lut by reference and by value) do not describe the same function".to_string());
     }
     if out == "ok forms-disagree" {
         // the runner evaluates every syntactic form of an operator (owned / borrowed operands,
